@@ -104,9 +104,22 @@ def _same_up_to_template(a, b):
     return strip(a) == strip(b)
 
 
+def _rng(seed, reaction):
+    return random.Random("%s|%s" % (seed, reaction))
+
+
+def _job(item):
+    r, seed, n = item
+    try:
+        return r, judge(r, _rng(seed, r), n)
+    except Exception as e:  # reported for that reaction, not a checker crash
+        return r, "raised %r" % (e,)
+
+
 def replay(d):
     inp = d["input"]
-    return judge(inp["reaction"], random.Random(inp.get("seed", 0)), 6) is not None
+    r = inp["reaction"]
+    return judge(r, _rng(inp.get("seed", 0), r), inp.get("n", 6)) is not None
 
 
 def check(run):
@@ -121,14 +134,18 @@ def check(run):
     rnd = random.Random(run.seed)
     pool = list(BASE) + ["CC.O>>CC.[H][H]", "C=CC.[H][H]>>CCC.[H][H]"] + [r for r in P.validation_reactions(40 if run.tier == "quick" else 500, seed=run.seed)]
     fails, marker_fails, cases, det = [], [], 0, 0
-    for r in pool:
+    from checks.common import parallel_map
+    nvar = 3 if run.tier == "quick" else 10
+    uniq = list(dict.fromkeys(pool))
+    res, skipped = parallel_map(_job, [(r, run.seed, nvar) for r in uniq], 300 if run.tier == "quick" else 2400, procs=12)
+    if skipped:
+        run.notes.append("rewritings: %d of %d reactions not finished within the time budget" % (skipped, len(uniq)))
+    if len(res) < min(len(uniq), len(BASE)):
+        run.undecided("C14/bounded:rewritings", "only %d reactions finished within the budget" % len(res))
+    for r, bad in res:
         cases += 1
-        try:
-            bad = judge(r, rnd, 3 if run.tier == "quick" else 10)
-        except Exception as e:
-            bad = "raised %r" % (e,)
         if bad:
-            (marker_fails if has_marker(r) else fails).append(({"kind": "variants", "reaction": r, "seed": run.seed}, bad))
+            (marker_fails if has_marker(r) else fails).append(({"kind": "variants", "reaction": r, "seed": run.seed, "n": nvar}, bad))
     run.bounded("marker-like-molecules", "reactions that contain molecules whose text contains the pipeline's marker substrings", 0, 0, marker_fails[:1], False)
     run.bounded("rewritings", "%d constructed reactions (repeated molecules included) + %d corpus reactions, each against 5-12 random rewritings"
                 % (len(BASE), len(pool) - len(BASE)), cases, len(set(pool)), fails[:6], False, [{"reaction": BASE[4], "variant": variant(BASE[4], rnd)}])
